@@ -34,6 +34,8 @@ var bases = []Tmpl{
 	{ID: "base_structm", Self: "structm", Units: []string{"type $S struct {\n\tv uint64\n}", "func (t $S) get() uint64 {\n\treturn t.v\n}", "func (t *$S) set(x uint64) {\n\tt.v = x\n}"}, Names: []string{"$S", "$S__get", "$S__set"}},
 	{ID: "base_named", Self: "named", Units: []string{"type $S uint64"}, Names: []string{"$S"}},
 	{ID: "base_const", Self: "const", Units: []string{"const $S uint64 = 5"}, Names: []string{"$S"}},
+	{ID: "base_alias", Self: "alias", Units: []string{"type $S = uint64"}, Names: []string{"$S"}},
+	{ID: "base_alias_slice", Self: "aliasslice", Units: []string{"type $S = []byte"}, Names: []string{"$S"}},
 	{ID: "base_global", Self: "global", Units: []string{"var $S uint64 = 7"}, Names: []string{"$S"}},
 }
 
@@ -85,6 +87,16 @@ var tmpls = []Tmpl{
 	{ID: "method_calls_func", Self: "multi", Target: "func", Units: []string{"type Own$S struct {\n\tv uint64\n}", "func (o Own$S) $S() uint64 {\n\treturn $T() + o.v\n}"}, Names: []string{"Own$S", "Own$S__$S"}},
 	{ID: "method_uses_struct", Self: "multi", Target: "struct", Units: []string{"type Own$S struct {\n\tv uint64\n}", "func (o *Own$S) $S() uint64 {\n\tt := $T{v: o.v}\n\treturn t.v\n}"}, Names: []string{"Own$S", "Own$S__$S"}},
 	{ID: "func_recursive_and_calls", Self: "funcp", Target: "func", Units: []string{"func $S(n uint64) uint64 {\n\tif n == 0 {\n\t\treturn $T()\n\t}\n\treturn $S(n-1) + 1\n}"}, Names: []string{"$S"}},
+	{ID: "func_alias_param", Self: "funcp", Target: "alias", Units: []string{"func $S(n $T) $T {\n\treturn n + 1\n}"}, Names: []string{"$S"}},
+	{ID: "func_alias_var", Self: "func", Target: "alias", Units: []string{"func $S() uint64 {\n\tvar n $T\n\treturn n\n}"}, Names: []string{"$S"}},
+	{ID: "func_alias_make", Self: "func", Target: "alias", Units: []string{"func $S() uint64 {\n\tns := make([]$T, 2)\n\treturn uint64(len(ns))\n}"}, Names: []string{"$S"}},
+	{ID: "struct_field_alias", Self: "struct", Target: "alias", Units: []string{"type $S struct {\n\tv uint64\n\tn $T\n}"}, Names: []string{"$S"}},
+	{ID: "named_of_alias", Self: "named", Target: "alias", Units: []string{"type $S $T"}, Names: []string{"$S"}},
+	{ID: "func_aliasslice_param", Self: "funcp", Target: "aliasslice", Units: []string{"func $S(p $T) uint64 {\n\treturn uint64(len(p))\n}"}, Names: []string{"$S"}},
+	{ID: "struct_field_aliasslice", Self: "struct", Target: "aliasslice", Units: []string{"type $S struct {\n\tv uint64\n\tp $T\n}"}, Names: []string{"$S"}},
+	{ID: "func_param_named_as_type", Self: "funcp", Target: "struct", Units: []string{"func $S($T $T) uint64 {\n\treturn $T.v\n}"}, Names: []string{"$S"}},
+	{ID: "func_ptr_param_named_as_type", Self: "funcp", Target: "struct", Units: []string{"func $S($T *$T) uint64 {\n\treturn $T.v\n}"}, Names: []string{"$S"}},
+	{ID: "func_local_named_as_func", Self: "func", Target: "func", Units: []string{"func $S() uint64 {\n\tr := $T()\n\t$T := r + 1\n\treturn $T\n}"}, Names: []string{"$S"}},
 	{ID: "func_recursive_then_calls", Self: "funcp", Target: "func", Units: []string{"func $S(n uint64) uint64 {\n\tif n == 0 {\n\t\treturn 0\n\t}\n\treturn $S(n-1) + $T()\n}"}, Names: []string{"$S"}},
 	{ID: "func_recursive_then_const", Self: "funcp", Target: "const", Units: []string{"func $S(n uint64) uint64 {\n\tif n == 0 {\n\t\treturn 0\n\t}\n\treturn $S(n-1) + $T\n}"}, Names: []string{"$S"}},
 	{ID: "func_recursive_then_struct", Self: "funcp", Target: "struct", Units: []string{"func $S(n uint64) uint64 {\n\tif n == 0 {\n\t\treturn 0\n\t}\n\tr := $S(n - 1)\n\tt := $T{v: r}\n\treturn t.v\n}"}, Names: []string{"$S"}},
@@ -177,6 +189,12 @@ func mkPkgs(tier string) []Pkg {
 					var sb strings.Builder
 					sb.WriteString("package q\n\n")
 					for _, ui := range p[start:end] {
+						if strings.Contains(units[ui], "wire.") {
+							sb.WriteString("import \"c04mod/wire\"\n\n")
+							break
+						}
+					}
+					for _, ui := range p[start:end] {
 						sb.WriteString(units[ui] + "\n\n")
 					}
 					files[fn] = sb.String()
@@ -264,6 +282,9 @@ func mkPkgs(tier string) []Pkg {
 		emit("special_multi_name_"+kw+"_spec_in_group", []string{"func UMl() uint64 {\n\treturn Ml + Mz\n}", kw + " (\n\tMf, Ml uint64 = 1, 2\n\tMz     uint64 = 3\n)"}, []string{"UMl", "Mf", "Ml", "Mz"})
 	}
 	mayReject = false
+	// a receiver named like its type; a type of an imported local package with the name of a local declaration
+	emit("special_receiver_named_as_type", []string{"func (Bb *Bb) room() uint64 {\n\treturn Bb.v\n}", "func (Bb Bb) get() uint64 {\n\treturn Bb.v + 1\n}", "type Bb struct {\n\tv uint64\n}"}, []string{"Bb__room", "Bb__get", "Bb"})
+	emit("special_foreign_same_name", []string{"type Aa struct {\n\tw wire.Bb\n\tv uint64\n}", "type Bb struct {\n\ta Aa\n}", "func Use(h wire.Bb) uint64 {\n\treturn wire.Size(h)\n}"}, []string{"Aa", "Bb", "Use"})
 	// an interface conversion needed by two functions one of which is called from a function declared earlier
 	// (types, method and the interface user are pinned first so that the known St__to__I / St__m ordering finding plays no part)
 	head = "type I interface {\n\tm() uint64\n}\n\ntype St struct {\n\tv uint64\n}\n\nfunc (s St) m() uint64 {\n\treturn s.v\n}\n\nfunc use(i I) uint64 {\n\treturn i.m()\n}\n"
@@ -480,6 +501,8 @@ func main() {
 	mod := filepath.Join(work, "mod")
 	os.MkdirAll(mod, 0755)
 	os.WriteFile(filepath.Join(mod, "go.mod"), []byte("module c04mod\n\ngo 1.22\n"), 0644)
+	os.MkdirAll(filepath.Join(mod, "wire"), 0755)
+	os.WriteFile(filepath.Join(mod, "wire", "w.go"), []byte("package wire\n\ntype Bb struct {\n\tLen uint64\n}\n\ntype Aa struct {\n\tK uint64\n}\n\nfunc Size(b Bb) uint64 {\n\treturn b.Len\n}\n"), 0644)
 	for _, p := range pkgs {
 		d := filepath.Join(mod, p.Name)
 		os.MkdirAll(d, 0755)
